@@ -14,7 +14,7 @@ CLAIMS = {
              "task is created only for the members without requirement before the first wait, or under the "
              "fold-classified fact `all requirements is_done()` for that very job; that no other co_run call site "
              "exists; that is_done is true exactly on finished tasks; that the nested body is the awaited inherited run."
-             " Also: of the job's mutable state is_done() reads only the task registry, which is reset before the first start (truth tables over own task x members for nested schedulers). Also (= R11.2): no exit of a nested run, CancelledError edges included, leaves one of its job tasks alive. A sequence keeps verbatim the requirements it receives while empty.",
+             " Also: of the job's mutable state is_done() reads only the task registry, which is reset before the first start (truth tables over own task x members for nested schedulers). Also (= R11.2): no exit of a nested run, CancelledError edges included, leaves one of its job tasks alive. A sequence keeps verbatim the requirements it receives while empty. Also (= R18.1-3): the graph surgery sanitizes only once the member set is final, so no requirement between two kept jobs is dropped on the way.",
              "asyncio's own semantics.", ENGINE + " + truth table of is_done + who-may-call scan"),
     "C02": c("Decides the accounting shape behind `return True` (accumulator from 0, once per iteration, of non-forever "
              "tasks of the current done set, against the number of non-forever members), that the main wait covers "
@@ -24,23 +24,23 @@ CLAIMS = {
     "C03": c("Necessary conditions only: absence of the wedges the property names -- window slot free on every exit "
              "of the wrapper (typestate with cancellation and exception edges), failed requirements count as done and "
              "release successors gathered from all done tasks, every main wait re-armed with deadline-now."
-             " Also: every activation queues its jobs on a window it built itself. The default of shutdown_timeout is a positive bound.",
+             " Also: every activation queues its jobs on a window it built itself. The default of shutdown_timeout is a positive bound. Also: the handler of the window wrapper asks the job about its criticality when it fails, not when its task was created; jobs_window is what the caller gave; the guard of a successor start is computed afresh for each candidate.",
              "termination of run() for all schedules (liveness proper).", "typestate + " + ENGINE),
     "C04": c("Decides exit <-> verdict <-> cause-flag consistency on every return of the run, the truth tables of "
              "failed_time_out/failed_critical/why over unset / timeout 0 / positive timeout, the critical mapping of the "
              "nested form over path facts (including exception identity), and that the wrapper never replaces an exception."
-             " Also: the synchronous run() returns the value of driving co_run() once, unprotected; critical/timeout are what the caller gave; exception values are compared with None.",
+             " Also: the synchronous run() returns the value of driving co_run() once, unprotected; critical/timeout are what the caller gave; exception values are compared with None. Also: the main wait is awaited as it is (no outer wait_for/timeout() that would discard completions); the diagnosis accessors read no job outcome.",
              "which cause wins when expiry, last completion and a critical failure share one loop iteration.",
              ENGINE + " + truth tables of pure accessors"),
     "C05": c("Decides that the abort flag is exactly `exists done task: raised and critical`, that every successor start "
              "follows a negative abort test of the same iteration, and that the abort path is cancel-all -> await-all "
              "(unbounded) -> shutdown -> return False with no wait for normal completion."
-             " Also: no slot hand-over on a critical failure; the critical flag is what the caller gave and is_critical() is that flag; exception values are compared with None; two deliveries of CancelledError are modelled. Also: a job that obtains its window slot after a critical job has failed does not start (the wrapper tests a flag of the window after its last suspension, and the failure path raises it); the cancellation handler of a nested run opens no shutdown phase of its own.",
+             " Also: no slot hand-over on a critical failure; the critical flag is what the caller gave and is_critical() is that flag; exception values are compared with None; two deliveries of CancelledError are modelled. Also: a job that obtains its window slot after a critical job has failed does not start (the wrapper tests a flag of the window after its last suspension, and the failure path raises it); the cancellation handler of a nested run opens no shutdown phase of its own. Also: every job body, nested schedulers included, goes through the window wrapper (the only way past the gate); the wrapper's handler reads the criticality at failure time.",
              "'at that same instant' as wall-clock.", ENGINE + " + EXIT automaton"),
     "C06": c("Decides non-interference: a done task's outcome reaches scheduling decisions only in the exact masked form "
              "raised-and-critical; same slot effect on both outcomes of the wrapper; failed jobs counted and their "
              "successors released; the exception stays retrievable (registry never overwritten)."
-             " Also: the diagnostic helpers the run calls cannot raise on a job's outcome; raised_exception() tables; the critical flag is what the caller gave. Also: the run aborts exactly when some job of the batch raised and is critical (exists-fold over the done set). The window of a run closes exactly when its last regular job has completed (tolerated failures counted).",
+             " Also: the diagnostic helpers the run calls cannot raise on a job's outcome; raised_exception() tables; the critical flag is what the caller gave. Also: the run aborts exactly when some job of the batch raised and is critical (exists-fold over the done set). The window of a run closes exactly when its last regular job has completed (tolerated failures counted). Also: failed_time_out(), failed_critical() and why() read what the run recorded about itself, never what a job returned or raised.",
              "equality of the timed traces of two runs (relational).", "taint (non-interference) over path facts and provenance terms"),
     "C07": c("Decides the safety clause by typestate analysis of the window wrapper over every path, provenance of the "
              "queue bound, one window per activation sized by the scheduler's own jobs_window, and a who-may-start rule."
@@ -49,7 +49,7 @@ CLAIMS = {
     "C08": c("Decides that the deadline is stored once per activation before the loop as clock()+own timeout, never "
              "between two main waits, that every main wait is armed with deadline-clock() (same clock), and that the "
              "expiry path is tidy -> shutdown -> False with the timeout cause."
-             " Also: timeout is stored as given and written nowhere else.",
+             " Also: timeout is stored as given and written nowhere else. Also: the helper that records the deadline of a phase stores it on every path (None included).",
              "behaviour exactly at T; clock quality.", ENGINE + " + EXIT automaton"),
     "C09": c("Decides that `forever` influences no start condition, candidate set or wait argument, that both sides of "
              "the completion test count non-forever jobs only, and that the success exit cancels and awaits what is pending."
@@ -58,36 +58,36 @@ CLAIMS = {
     "C10": c("Decides the C3 MRO table of the nestable class (which side supplies each life-cycle method, both "
              "constructors), that the nested body is the awaited inherited run with window and deadline per activation, "
              "and the failure mapping and identity."
-             " Also: the nestable class forwards every configuration parameter unchanged to both parents; construction rules and job-truthiness rule. Also: run() is transparent to what the tree raises. A nested scheduler takes a slot of its parent's window like any job; the window of a run closes with its last regular job and only then.",
+             " Also: the nestable class forwards every configuration parameter unchanged to both parents; construction rules and job-truthiness rule. Also: run() is transparent to what the tree raises. A nested scheduler takes a slot of its parent's window like any job; the window of a run closes with its last regular job and only then. Also: the verdict of a (nested) run is determined by the cause of each exit, not by how long the shutdown handlers took; the exception read from a critical member is raised at once.",
              "'same times as the flattened graph' (timing).", "MRO computation + " + ENGINE),
     "C11": c("Decides task-group discipline on every normal exit and, with a CancelledError edge forked at every "
              "may-suspend await of the run (inlined into the nested form) and of the broadcast, that every path leaving "
              "the ownership scope has cancelled and awaited all owned tasks; checks that every cancel() is part of "
              "cancel-all-then-await-unbounded."
-             " Two deliveries of CancelledError are modelled at every await (a canceller can be cancelled while it waits, and cancels again).",
+             " Two deliveries of CancelledError are modelled at every await (a canceller can be cancelled while it waits, and cancels again). Also: the user's shutdown coroutine is awaited as it is (not shielded or scheduled in a task of its own); the handler tasks of the broadcast are never handed to code that reads a job back-pointer they do not have (nothing raises before the stragglers are cancelled).",
              "job code that swallows CancelledError.", ENGINE + " with cancellation edges"),
     "C12": c("Necessary conditions: all entry jobs started before the first wait; candidates = union over all done "
              "tasks of their successors, all visited; reverse links rebuilt and exact; guard no stronger than needed; "
              "no suspension while a slot is held."
-             " Also: is_done() is true on every finished task for atomic jobs and nested schedulers alike; the acquire really waits. Also: jobs_window is what the caller gave (stored unchanged, written nowhere else). No job is held back by a window that closed before the end of the run (completions are counted when they happen).",
+             " Also: is_done() is true on every finished task for atomic jobs and nested schedulers alike; the acquire really waits. Also: jobs_window is what the caller gave (stored unchanged, written nowhere else). No job is held back by a window that closed before the end of the run (completions are counted when they happen). Also: no verdict before the first wait once the entry jobs have their task; the guard of a successor start is re-initialised for each candidate.",
              "FIFO hand-over of asyncio.Queue; timing.", ENGINE),
     "C13": c("Decides tidy -> shutdown -> return on every exit, atomic early once-guard with a single writer, total "
              "unfiltered broadcast through member dispatch (MRO relay for nested schedulers), bounded wait by "
              "shutdown_timeout then cancel-and-await of stragglers, truthful boolean result."
-             " Also: the synchronous shutdown() is transparent; shutdown_timeout is what the caller gave; a coroutine-based job awaits the shutdown coroutine it was given, guarded by nothing but its presence. Also: an exit of the run before any start owes the shutdown broadcast unless the member set is known empty; the cancellation handler of a nested run opens no shutdown phase of its own. The default of shutdown_timeout is a positive bound.",
+             " Also: the synchronous shutdown() is transparent; shutdown_timeout is what the caller gave; a coroutine-based job awaits the shutdown coroutine it was given, guarded by nothing but its presence. Also: an exit of the run before any start owes the shutdown broadcast unless the member set is known empty; the cancellation handler of a nested run opens no shutdown phase of its own. The default of shutdown_timeout is a positive bound. Also: the tasks of the shutdown handlers are never handed to code that reads `<task>._job` (which they lack): nothing can raise between shutdown_timeout and the cancellation of the stragglers. Also: the shutdown phase never inherits the deadline of the run (the deadline helper stores on every path).",
              "handler durations.", ENGINE + " + MRO"),
     "C14": c("Decides the truth tables of the six inspection methods over the 7-point life-cycle domain for the job "
              "base class and the nestable class, writer monotonicity of the registry and running flag, and identity "
-             "flow of results and exceptions. Also: every job body, nested schedulers included, is started through the window wrapper, the only place that sets the running flag.",
+             "flow of results and exceptions. Also: every job body, nested schedulers included, is started through the window wrapper, the only place that sets the running flag. Also: once the body has finished the wrapper reaches its end without suspending: is_done() holds at the first quiescent point after the body ended.",
              "nothing beyond the meaning of asyncio.Task internals.", "truth tables by abstract evaluation + writer tables"),
     "C15": c("Decides the five proof obligations of the marking algorithm on topological_order (guard = all requirements "
              "marked and self unmarked, nothing else; progress or raise; count-guarded end; marks reset) and both forms "
-             "of check_cycles. check_cycles() and its helpers raise nothing of their own; the numbering hook stores the id on every pass.",
+             "of check_cycles. check_cycles() and its helpers raise nothing of their own; the numbering hook stores the id on every pass. Also: no consumer re-orders what topological_order() yields (sorted / reversed / set).",
              "nothing: here the structural clauses are the argument.", ENGINE + " with fold summaries"),
     "C16": c("Decides closure (every member's requirements intersected with the receiver's own member set), minimality "
              "(no other writer), unconditional recursion, and the fold truth table of the returned value over "
              "(flag, removed, nested, nested result)."
-             " The removal test must compare the state before the prune with the state after it (requirement sets are versioned, aliases follow an in-place prune). A store to `required` stores a fresh set (sets pruned in place are each job's own).",
+             " The removal test must compare the state before the prune with the state after it (requirement sets are versioned, aliases follow an in-place prune). A store to `required` stores a fresh set (sets pruned in place are each job's own). Also: a verdict computed as `the number of requirements is unchanged` is accepted only over a walk that reaches nested scheduler objects.",
              "nothing.", "fold summary / truth table of the member loop"),
     "C17": c("Decides direction agreement by constant propagation, freshness of reverse links on every path of the "
              "public queries, the step (union over all starts, members only) and closure (fixpoint) shapes, yield "
@@ -95,17 +95,17 @@ CLAIMS = {
              "nothing beyond set semantics; the helper shapes are matched structurally (unknown shapes are inconclusive).",
              "constant propagation + " + ENGINE + " + structural rules"),
     "C18": c("Necessary conditions: sanitize after narrowing; bypass step set (membership test first, downstreams, full "
-             "product with orientation, only the job removed); documented set terms of keep_only/keep_only_between. The reverse links the surgery reads are rebuilt whenever asked for; closure additions are not conditioned on the element they are reached from; jobs are never taken for collections.",
+             "product with orientation, only the job removed); documented set terms of keep_only/keep_only_between. The reverse links the surgery reads are rebuilt whenever asked for; closure additions are not conditioned on the element they are reached from; jobs are never taken for collections. Also: keep_only_between() delegating to keep_only() adds nothing back after the sanitize that keep_only() runs. Also: the milestones of the two closures of keep_only_between() are the caller's (never a set computed from the graph when the caller gave none).",
              "preservation of the transitive closure over all DAGs (relational).", "provenance terms + " + ENGINE),
     "C19": c("Decides the chain invariant across all writers of Sequence.jobs, emptiness guards of every first/last "
              "subscript, that every dispatch branch of requires() honours remove (with KeyError form) and forwards it, "
              "indices/identity/None handling, and registration paths."
-             " Also: who may write a `required` set (frame rule); a sequence never drops a requirement received while empty. Also: a loop of requires() whose body can remove from self.required never iterates an argument that may be that very set. sanitize() / bypass_and_remove() are called by the documented graph surgery only.",
+             " Also: who may write a `required` set (frame rule); a sequence never drops a requirement received while empty. Also: a loop of requires() whose body can remove from self.required never iterates an argument that may be that very set. sanitize() / bypass_and_remove() are called by the documented graph surgery only. Also: a removal is never filtered by an identity test against the job itself (KeyError if absent). Also: requirements go into `required` one by one through the dispatch; requires() never merges a collection as it is.",
              "nothing.", ENGINE + " (sibling and deviance rules)"),
     "C20": c("Decides quoting of every attribute value and typing of every emitter hole, the 4-case edge table "
              "(exhaustive, exactly one per requirement, orientation, lhead/ltail), ids before use and tree-wide "
              "numbering, raises reachable from dot_format, DOT-subset conformance and brace balance."
-             " Also: no class-level mutable object is mutated through an instance or an alias; the id templates yield DOT identifiers; the emitter is read as pieces appended to the output whatever the formatting idiom.",
+             " Also: no class-level mutable object is mutated through an instance or an alias; the id templates yield DOT identifiers; the emitter is read as pieces appended to the output whatever the formatting idiom. Also: no rendering function keeps state across calls (a default argument built from a package class is a mutable default).",
              "validity of arbitrary label text beyond the quoter's contract; flag->style constants; rendering.",
              "taint/typing of format holes + " + ENGINE),
 }
